@@ -104,6 +104,10 @@ def run(eng, R):
     src = common.src_of(eb.node)
     R.ob("H-band", "XYFit.error_band:quadratic form", "_band_y[_x_idx] = _p_res.dot(_cut_parameter_cov_mat).dot(_p_res)" in src and "return np.sqrt(_band_y)" in src, eng.where(eb),
          "the band must be sqrt(p^T C p) per evaluation point")
+    likes = [c for c in ast.walk(eb.node) if isinstance(c, ast.Call) and isinstance(c.func, ast.Attribute) and c.func.attr in ("zeros_like", "empty_like", "ones_like", "full_like")]
+    ok = bool(likes) and all(any(k.arg == "dtype" and ast.unparse(k.value) == "float" for k in c.keywords) for c in likes)
+    R.ob("H-band", "XYFit.error_band:float result", ok, eng.where(eb),
+         "the result array takes the dtype of the caller's x values: for integer x (np.arange) the variances are truncated, typically to a band of exactly zero")
     R.ob("H-band", "XYFit.error_band:mask", "_cut_parameter_cov_mat = self.parameter_cov_mat[_not_pars_fixed][:, _not_pars_fixed]" in src and "_p_res = _f_deriv_by_params[_x_idx, _not_pars_fixed]" in src
          and "_not_pars_fixed = [_par_name not in self._fitter.fixed_parameters for _par_name in self.parameter_names]" in src, eng.where(eb),
          "derivatives and covariance must be cut with the same mask of non-fixed parameters")
